@@ -212,7 +212,9 @@ def explore(mod, tier, seed, shard, examples_override=None, no_shrink=False):
       return rec, (plan, v2)
     except BaseException as e:
       name = type(e).__name__
-      if rec.last_failure is not None and ('Flaky' in name or 'Inconsistent' in name):
+      if rec.last_failure is not None and isinstance(e, Exception):
+        # Hypothesis gave up after the oracle had flagged a plan (Flaky / inconsistent data generation, or an
+        # internal error of its shrinker): replay that plan directly against the real code
         plan, v = rec.last_failure
         fails = 0
         for _ in range(3):
@@ -221,10 +223,12 @@ def explore(mod, tier, seed, shard, examples_override=None, no_shrink=False):
           except Violation as v3:
             fails += 1
             v = v3
-        # the oracle did flag this plan against the real code at least once: report it,
-        # saying how reproducible it is (nondeterminism in the code under test, e.g. id()-keyed state)
-        v.detail = '%s (fails in %d of 3 direct replays; Hypothesis reported %s)' % (v.detail, fails, name)
-        return rec, (plan, v)
+        flaky = 'Flaky' in name or 'Inconsistent' in name
+        if fails or flaky:
+          # the oracle did flag this plan against the real code: report it, saying how reproducible it is
+          # (nondeterminism in the code under test, e.g. id()-keyed state, makes Hypothesis call it flaky)
+          v.detail = '%s (fails in %d of 3 direct replays; Hypothesis reported %s)' % (v.detail, fails, name)
+          return rec, (plan, v)
       raise
     if state['skipped']:
       rec.extra['skipped_after_time_budget'] = state['skipped']
